@@ -464,7 +464,7 @@ def write_workspace(ws_dir, crates):
         d = os.path.join(ws_dir, cname, "src")
         os.makedirs(d)
         with open(os.path.join(ws_dir, cname, "Cargo.toml"), "w") as f:
-            f.write(G.CARGO_TOML.format(name=cname, repo=G.REPO, verif=G.VERIF, rtfeat=""))
+            f.write(G.CARGO_TOML.format(name=cname, repo=G.REPO, verif=G.VERIF, rtfeat="", futdep='futures = "0.3.0"\n'))
         lines = ["#![allow(clippy::all)]", "#[allow(unused_imports)]", "use join::*;", "#[allow(unused_imports)]",
                  "use rt::sem::{Ext, VecExt};", "use serde_json::Value;", ""]
         sp = {}
